@@ -15,6 +15,8 @@ one canonical form of constructs that maintainers routinely rewrite into each ot
   S3  if (a) { if (b) X }  ->  if (a && b) X                                (no else on either)
   S6  for (T i = 0; i < X.size(); ++i) { .. X[i] .. } with i used only as the index of the plain member / variable X -> range-for over X
   S7  T i = a; while (c(i)) { body; ++i; } (no continue, i dead afterwards) -> for (T i = a; c(i); ++i) body
+  S4  a void function body / a loop body that ends with `if (a && b) { X }` -> `if (!a) return / continue; if (!b) ...; X` (guard-clause form)
+  S8  if (a > b) a = b; -> a = min(a, b); if (a < b) a = b; -> a = max(a, b)   (integers)
   S5  `while (c) body` and `for (; c; ) body` are both exported as For nodes with empty init / increment
 
 Nothing here changes which values are computed, in which order side effects happen, or which exceptions are thrown."""
@@ -441,6 +443,25 @@ def norm_stmt(s):
             rest = _stmts(s["e"])
             s["e"] = None
             return [s] + rest
+        # S8: if (a > b) a = b;  ->  a = min(a, b);   if (a < b) a = b;  ->  a = max(a, b)      (integers)
+        if s.get("e") is None:
+            body = _stmts(s.get("t"))
+            c = _strip(s["c"])
+            if len(body) == 1 and isinstance(body[0], dict) and body[0].get("k") == "Expr" and isinstance(c, dict) and c.get("k") == "Bin" and c.get("op") in ("<", ">"):
+                a = _strip(body[0].get("e"))
+                if isinstance(a, dict) and a.get("k") == "Assign" and a.get("op") == "=" and not _is_float(_strip(a.get("l"))) and not _is_float(_strip(a.get("r"))):
+                    big, small = (c["l"], c["r"]) if c["op"] == ">" else (c["r"], c["l"])
+                    pick = None
+                    if _same(a["l"], big) and _same(a["r"], small):
+                        pick = "min"
+                    elif _same(a["l"], small) and _same(a["r"], big):
+                        pick = "max"
+                    if pick:
+                        args = sorted([a["l"], a["r"]], key=_txt)
+                        call = {"k": "Call", "cname": pick, "callee": "std::" + pick, "args": args, "loc": s.get("loc"), "t": a.get("t"), "sz": a.get("sz"), "synth": True}
+                        na = dict(a)
+                        na["r"] = call
+                        return [{"k": "Expr", "e": na, "loc": s.get("loc"), "synth": True}]
         # S3
         if s.get("e") is None:
             inner = _stmts(s.get("t"))
@@ -455,12 +476,92 @@ def norm_stmt(s):
     return [s]
 
 
+def _conjuncts(c):
+    c2 = _strip(c)
+    if isinstance(c2, dict) and c2.get("k") == "Bin" and c2.get("op") == "&&":
+        return _conjuncts(c2["l"]) + _conjuncts(c2["r"])
+    return [c]
+
+
+def _bare_exit(s, kind):
+    """`return;` / `continue;`, possibly wrapped in a block"""
+    ss = _stmts(s)
+    return len(ss) == 1 and isinstance(ss[0], dict) and ss[0].get("k") == kind and ss[0].get("e") is None
+
+
+def _guard_tail(stmts, exit_kind):
+    """S4: a block in tail position (void function body: exit = return; loop body: exit = continue) that ends with
+    `if (a && b) { X }` (no else)  ->  `if (!a) exit; if (!b) exit; X` (repeated for the new tail): both spellings of "do X only
+    if ..." become the guard-clause form, one guard per conjunct (same evaluation order as the && chain)."""
+    out = list(stmts)
+    for _ in range(8):
+        if not out or not isinstance(out[-1], dict) or out[-1].get("k") != "If" or out[-1].get("e") is not None:
+            break
+        last = out[-1]
+        inner = _stmts(last.get("t"))
+        if not inner or _bare_exit(last.get("t"), exit_kind) or _exits(last.get("t")):
+            break
+        if len(inner) == 1 and isinstance(inner[0], dict) and inner[0].get("k") in ("Return", "Continue", "Break"):
+            break
+        guards = []
+        for cj in _conjuncts(last["c"]):
+            neg = _neg(cj)
+            if isinstance(neg, dict) and neg.get("k") == "Bin":
+                neg = norm_expr(neg)
+            guards.append({"k": "If", "c": neg, "t": {"k": exit_kind, "loc": last.get("loc"), "synth": True}, "e": None, "loc": last.get("loc"), "synth": True})
+        out = out[:-1] + guards + inner
+    # a trailing bare exit is redundant
+    while out and isinstance(out[-1], dict) and out[-1].get("k") == exit_kind and out[-1].get("e") is None:
+        out = out[:-1]
+    return out
+
+
+def _tail_loops(n):
+    """apply S4 to the bodies of loops (exit = continue)"""
+    if isinstance(n, list):
+        for x in n:
+            _tail_loops(x)
+        return
+    if not isinstance(n, dict):
+        return
+    for v in list(n.values()):
+        if isinstance(v, (dict, list)):
+            _tail_loops(v)
+    if n.get("k") in ("For", "RangeFor", "Do") and isinstance(n.get("b"), dict):
+        b = n["b"]
+        body = _stmts(b)
+        new = _guard_tail(body, "Continue")
+        if len(new) != len(body):
+            n["b"] = {"k": "Block", "s": new, "loc": b.get("loc")}
+
+
+def nest_guards(stmts, kind="Return"):
+    """the inverse view of S4 for rules that compare a void function with a value-returning twin (stream writer / byte writer):
+    `if (c) return; REST` -> `if (!c) { REST }`"""
+    out = list(stmts)
+    for i, s in enumerate(out):
+        if isinstance(s, dict) and s.get("k") == "If" and s.get("e") is None and _bare_exit(s.get("t"), kind):
+            rest = out[i + 1:]
+            if not rest:
+                return out[:i]
+            inner = nest_guards(rest, kind)
+            neg = _neg(s["c"])
+            if isinstance(neg, dict) and neg.get("k") == "Bin":
+                neg = norm_expr(neg)
+            new = {"k": "If", "c": neg, "t": {"k": "Block", "s": inner, "loc": (rest[0] or {}).get("loc") if isinstance(rest[0], dict) else None}, "e": None, "loc": s.get("loc"), "synth": True}
+            return out[:i] + [new]
+    return out
+
+
 def norm_function(fn):
     body = fn.get("body")
     if not isinstance(body, dict):
         return fn
     r = norm_stmt(body)
     body = r[0] if len(r) == 1 else {"k": "Block", "s": r, "loc": body.get("loc")}
+    _tail_loops(body)
+    if (fn.get("ret") == "void" or fn.get("kind") in ("ctor", "dtor")) and body.get("k") == "Block":
+        body["s"] = _guard_tail(body.get("s", []), "Return")
     fn["body"] = body
     for i in fn.get("inits", []) or []:
         if isinstance(i.get("e"), (dict, list)):
